@@ -408,7 +408,9 @@ pub fn cases(seed: u64, thorough: bool, faults: &[Value]) -> Vec<LCase> {
             p.extend(vec![0x3C; (len as u64 * cs as u64).min(8192) as usize]);
             payloads.push((format!("psf2:len={len}:cs={cs}:h={hh}:w={ww}"), p));
         }
-        let tails: [(&str, &[u8]); 4] = [("sixel", b"\x1bPq#1~~~-~~~\x1b\\"), ("text", b"AB\r\nCD"), ("sixel-raster", b"\x1bPq\"1;1;20;12#1!20~-!20~\x1b\\"), ("resize", b"\x1b[8;30;90tAB")];
+        // (the last tail: every control function that REPORTS state derived from the font table / the screen)
+        let tails: [(&str, &[u8]); 5] = [("sixel", b"\x1bPq#1~~~-~~~\x1b\\"), ("text", b"AB\r\nCD"), ("sixel-raster", b"\x1bPq\"1;1;20;12#1!20~-!20~\x1b\\"), ("resize", b"\x1b[8;30;90tAB"),
+                                          ("reports", b"\x1b[=1n\x1b[=2n\x1b[=3n\x1b[6n\x1b[5n\x1b[255n\x1b[?62n\x1b[1;1;1;1;1*y\x1b[c\x1b[0;1 DA")];
         for (pn, p) in &payloads {
             for slot in [0u32, 1, 42] {
                 for (tn, t) in &tails {
@@ -421,6 +423,22 @@ pub fn cases(seed: u64, thorough: bool, faults: &[Value]) -> Vec<LCase> {
                         out.push(LCase { ext: e.to_string(), seed: "font-dcs".into(), mutation: format!("font={pn}:slot={slot}:then={tn}"), bytes: b.clone() });
                     }
                 }
+            }
+        }
+    }
+    // headers that declare the LARGEST sizes the formats accept, with little or no data behind them (a field's own maximum is
+    // usually rejected by a range check: the dangerous values are the largest LEGAL ones - XBin width 4096 x height 65535,
+    // flags for palette / font / compression in every combination)
+    for (w, h) in [(4096u16, 65535u16), (4096, 32768), (4096, 1024), (1, 65535), (160, 65535), (4096, 256)] {
+        for flags in [0u8, 1, 2, 4, 3, 7, 0x10, 0x17] {
+            for extra in [0usize, 1, 2, 160, 5000] {
+                let mut b = b"XBIN\x1a".to_vec();
+                b.extend(w.to_le_bytes());
+                b.extend(h.to_le_bytes());
+                b.push(16);
+                b.push(flags);
+                b.extend(std::iter::repeat(0x41u8).take(extra));
+                out.push(LCase { ext: "xb".into(), seed: "xbin-legal-max".into(), mutation: format!("w={w},h={h},flags={flags},extra={extra}"), bytes: b });
             }
         }
     }
